@@ -151,6 +151,18 @@ def check_case(case) -> Outcome:
             ref = [np.asarray(r) for r in ref]
             # the optimized run must materialize everything itself: empty the intermediate store
             spec.intermediate_store._store_dict.clear()
+            # ... and the targets of lazy stores inside the program (remember which ones the unoptimized run wrote completely)
+            targets = P.store_targets(arrs)
+            written_unopt = {}
+            for nid, (t, is_path) in targets.items():
+                try:
+                    z, img = P.read_store_target(t, is_path)
+                    written_unopt[nid] = z.nchunks_initialized == z.nchunks and P.compare(img, vals[nid]) is None
+                except Exception:
+                    written_unopt[nid] = False
+                P.clear_target(t, is_path)
+            if targets:
+                labels.add("store-mid")
         except Exception as e:
             labels.add(f"unoptimized-run-failed:{type(e).__name__}(C17)")
             return Outcome(labels=tuple(labels))
@@ -183,6 +195,21 @@ def check_case(case) -> Outcome:
         except Exception as e:
             fails.append(Failure(f"optimized-run-failed:{o['name']}:{type(e).__name__}", f"unoptimized run succeeded; optimized: {e!r}"[:400]))
             return Outcome(nontrivial=True, labels=tuple(labels), failures=tuple(fails))
+        # a lazy store inside the program that the unoptimized run carried out is carried out by the optimized run too
+        # (forced fusion settings, where the caller directs what is fused, are exempt)
+        if o["name"] in ("default", "multi", "simple"):
+            for nid, (t, is_path) in targets.items():
+                if not written_unopt.get(nid):
+                    continue
+                labels.add("store-mid-target-checked")
+                try:
+                    z, img = P.read_store_target(t, is_path)
+                    ok = z.nchunks_initialized == z.nchunks and P.compare(img, vals[nid]) is None
+                except Exception:
+                    ok = False
+                if not ok:
+                    fails.append(Failure(f"store-target-not-written:{o['name']}", f"node {nid} (store_lazy {prog['nodes'][nid - nin]['params']}): target written by the unoptimized run, not by the optimized one"))
+                    break
         for i, a, b in zip(req, ref, got):
             opn = ("input:" + prog["inputs"][i]["kind"]) if i < nin else prog["nodes"][i - nin]["op"]
             same = a.shape == b.shape and np.array_equal(a, b, equal_nan=True)
@@ -239,8 +266,10 @@ def check_case(case) -> Outcome:
 
 def shards(tier):
     if tier == "quick":
-        return [{"kind": "program", "name": f"s{i}", "n": 90, "rotate": 7 + i * 43} for i in range(7)]
-    return [{"kind": "program", "name": f"s{i}", "n": 1500, "rotate": 7 + i * 43} for i in range(16)]
+        return [{"kind": "program", "name": f"s{i}", "n": 90, "rotate": 7 + i * 43} for i in range(7)] + [
+            {"kind": "program", "name": f"store-mid{i}", "n": 90, "rotate": 19 + i * 37, "store_mid": 4} for i in range(2)]
+    return [{"kind": "program", "name": f"s{i}", "n": 1500, "rotate": 7 + i * 43} for i in range(16)] + [
+        {"kind": "program", "name": f"store-mid{i}", "n": 1500, "rotate": 19 + i * 37, "store_mid": 4} for i in range(4)]
 
 
 def run_shard(spec, seed, tier) -> Acc:
@@ -248,7 +277,7 @@ def run_shard(spec, seed, tier) -> Acc:
     if spec["kind"] == "__corpus__":
         return core.corpus_shard(sys.modules[__name__], acc)
     is_known, _ = core.known_matcher(ID)
-    core.hyp_run(case_strategy({"rotate": spec.get("rotate", 0)}), check_case, seed=seed, max_examples=spec["n"], acc=acc,
+    core.hyp_run(case_strategy({"rotate": spec.get("rotate", 0), "store_mid": spec.get("store_mid", 12)}), check_case, seed=seed, max_examples=spec["n"], acc=acc,
                  budget_s=420 if tier == "quick" else 3000, shrink=(tier == "thorough"), is_known=is_known)
     return acc
 
